@@ -965,6 +965,17 @@ func findingTags(e *entryPoint, x string) string {
 			}
 		}
 	}
+	// a back-quoted identifier whose bare spelling is a pseudo keyword in column-definition / TVF-argument / SELECT AS position
+	if toks, ok, _ := lexPublic(x); ok {
+		for _, t := range toks {
+			if t.Kind == token.TokenIdent && strings.HasPrefix(t.Raw, "`") {
+				switch strings.ToUpper(t.AsString) {
+				case "CHECK", "CONSTRAINT", "FOREIGN", "SYNONYM", "SEQUENCE", "VALUE":
+					add("quoted-pseudo-keyword")
+				}
+			}
+		}
+	}
 	if len(tags) == 0 {
 		return "-"
 	}
